@@ -146,6 +146,38 @@ NegH(h) == {Mk("C09/neg/private", h, <<F("main.tsh", <<Imp("a", "a.tsh")>>, <<Pr
         Mk("C09/neg/importedglobal", h, <<F("main.tsh", <<Imp("a", "a.tsh")>>, <<Print1(Var("G"))>>, h), F("a.tsh", <<>>, FileBody("a", "top", 1), h)>>),
         Mk("C09/neg/transitivealias", h, <<F("main.tsh", <<Imp("a", "a.tsh")>>, <<Print1(ACall("x", "Pub", <<I(1)>>))>>, h), F("a.tsh", <<Imp("x", "b.tsh")>>, ViaBody("a", "x"), h), F("b.tsh", <<>>, FileBody("b", "pub", 2), h)>>),
         Mk("C09/neg/argtype", h, <<F("main.tsh", <<Imp("a", "a.tsh")>>, <<Print1(ACall("a", "Pub", <<StrL("s")>>))>>, h), F("a.tsh", <<>>, FileBody("a", "pub", 1), h)>>)}
-Neg == NegH("digit")
+\* the scoping and typing rules hold inside imported files as in the main file (names there carry the file's prefix): one broken construct per library
+LibBad == <<<<"dup-param", <<Func("Pub", <<Param("a", "int"), Param("a", "int")>>, <<"int">>, <<RetS(<<Var("a")>>)>>)>>>>,
+            <<"dup-param-3", <<Func("Pub", <<Param("a", "int"), Param("b", "string"), Param("a", "string")>>, <<"int">>, <<RetS(<<I(1)>>)>>)>>>>,
+            <<"param-like-global", <<Def1("g", I(1)), Func("Pub", <<Param("g", "int")>>, <<"int">>, <<RetS(<<Var("g")>>)>>)>>>>,
+            <<"redefined-global", <<Def1("g", I(1)), Def1("g", I(2)), Func("Pub", <<Param("n", "int")>>, <<"int">>, <<RetS(<<Var("n")>>)>>)>>>>,
+            <<"redefined-local", <<Func("Pub", <<Param("n", "int")>>, <<"int">>, <<Def1("t", I(1)), Def1("t", I(2)), RetS(<<Var("t")>>)>>)>>>>,
+            <<"local-like-param", <<Func("Pub", <<Param("n", "int")>>, <<"int">>, <<Def1("n", I(2)), RetS(<<Var("n")>>)>>)>>>>,
+            <<"undefined-name", <<Func("Pub", <<Param("n", "int")>>, <<"int">>, <<RetS(<<Bin("+", Var("n"), Var("missing"))>>)>>)>>>>,
+            <<"use-after-block", <<Func("Pub", <<Param("n", "int")>>, <<"int">>, <<If1(BoolL(TRUE), <<Def1("t", I(1))>>), RetS(<<Var("t")>>)>>)>>>>,
+            <<"later-global", <<Func("Pub", <<Param("n", "int")>>, <<"int">>, <<RetS(<<Var("late")>>)>>), Def1("late", I(1))>>>>,
+            <<"func-twice", <<Func("Pub", <<Param("n", "int")>>, <<"int">>, <<RetS(<<Var("n")>>)>>), Func("Pub", <<Param("n", "int")>>, <<"int">>, <<RetS(<<I(0)>>)>>)>>>>,
+            <<"call-before-def", <<Func("Pub", <<Param("n", "int")>>, <<"int">>, <<RetS(<<CallE("later", <<>>)>>)>>), Func("later", <<>>, <<"int">>, <<RetS(<<I(1)>>)>>)>>>>,
+            <<"break-outside", <<Func("Pub", <<Param("n", "int")>>, <<"int">>, <<If1(BoolL(TRUE), <<BreakS>>), RetS(<<Var("n")>>)>>)>>>>,
+            <<"top-return", <<Func("Pub", <<Param("n", "int")>>, <<"int">>, <<RetS(<<Var("n")>>)>>), RetS(<<>>)>>>>,
+            <<"missing-return", <<Func("Pub", <<Param("n", "int")>>, <<"int">>, <<Print1(Var("n"))>>)>>>>,
+            <<"return-type", <<Func("Pub", <<Param("n", "int")>>, <<"int">>, <<RetS(<<StrL("s")>>)>>)>>>>,
+            <<"arg-type-inside", <<Func("h", <<Param("s", "string")>>, <<"int">>, <<RetS(<<LenE(Var("s"))>>)>>), Func("Pub", <<Param("n", "int")>>, <<"int">>, <<RetS(<<CallE("h", <<Var("n")>>)>>)>>)>>>>,
+            <<"nested-func", <<Func("Pub", <<Param("n", "int")>>, <<"int">>, <<RetS(<<Var("n")>>)>>), If1(BoolL(TRUE), <<Func("inner", <<>>, <<>>, <<Print1(I(1))>>)>>)>>>>,
+            <<"ok-control", <<Def1("g", I(1)), Func("Pub", <<Param("n", "int"), Param("m", "int")>>, <<"int">>, <<Def1("t", Bin("+", Var("n"), Var("g"))), RetS(<<Bin("+", Var("t"), Var("m"))>>)>>)>>>>>>
+\* the call itself is always well-formed: the ONLY defect is the one inside the library
+LibArgs(nm) == CASE nm \in {"dup-param", "ok-control"} -> <<I(1), I(2)>> [] nm = "dup-param-3" -> <<I(1), StrL("s"), StrL("t")>> [] OTHER -> <<I(1)>>
+LibNeg == {Mk("C09/libneg/" \o LibBad[i][1] \o "/" \o via, "letter",
+              IF via = "direct" THEN <<F("main.tsh", <<Imp("a", "a.tsh")>>, <<Print1(ACall("a", "Pub", LibArgs(LibBad[i][1])))>>, "letter"), F("a.tsh", <<>>, LibBad[i][2], "letter")>>
+              ELSE <<F("main.tsh", <<Imp("b", "b.tsh")>>, <<Print1(ACall("b", "Go", <<>>))>>, "letter"),
+                     F("b.tsh", <<Imp("x", "a.tsh")>>, <<Func("Go", <<>>, <<"int">>, <<RetS(<<ACall("x", "Pub", LibArgs(LibBad[i][1]))>>)>>)>>, "letter"),
+                     F("a.tsh", <<>>, LibBad[i][2], "letter")>>)
+           : i \in 1..Len(LibBad), via \in {"direct", "nested"}}
+\* an alias that was never imported, while the main file defines a function of the called name (public or private), before or after the call
+AliasNeg == {Mk("C09/neg/unknownalias-local/" \o nm, "letter", <<F("main.tsh", <<Imp("a", "a.tsh")>>, <<Func(nm, <<Param("n", "int")>>, <<"int">>, <<RetS(<<I(0)>>)>>), Print1(ACall("zz", nm, <<I(1)>>))>>, "letter"),
+                                                                   F("a.tsh", <<>>, FileBody("a", "pub", 1), "letter")>>) : nm \in {"Pub", "helper", "Same2"}}
+            \cup {Mk("C09/neg/alias-of-other-file/" \o nm, "letter", <<F("main.tsh", <<Imp("a", "a.tsh"), Imp("b", "b.tsh")>>, <<Print1(ACall("a", nm, <<I(1)>>))>>, "letter"),
+                                                                        F("a.tsh", <<>>, FileBody("a", "pub", 1), "letter"), F("b.tsh", <<>>, FileBody("b", "priv", 2), "letter")>>) : nm \in {"Use", "hidden"}}
+Neg == NegH("digit") \cup LibNeg \cup AliasNeg
 ASSUME ndJsonSerialize("fam.ndjson", SetToSeq(S1 \cup S2 \cup S3 \cup S4 \cup S4b \cup S5 \cup S6 \cup S7 \cup S8 \cup AllGraphs \cup SiteCases \cup Neg))
 =============================================================================
